@@ -67,6 +67,156 @@ def le_int(b):
     return sum(x << (8 * i) for i, x in enumerate(bytearray(b)))
 
 
+# The documented layout of the bundled boot/sark.struct (base, size, {field: (offset, unit bytes, array length,
+# kind)}), frozen from the unchanged tree: the oracle and the simulated memory go by THIS, never by the file in the
+# repository under test -- a changed row of the data file shows as a wrong field value / a clobbered neighbour, and as
+# the broken obligation layout:bundled-struct-file-equals-pinned.
+PINNED_LAYOUT = {
+    "sv": [0xf5007f00, 256, {
+        'p2p_addr': (0x0, 2, 1, 'int'),
+        'p2p_dims': (0x2, 2, 1, 'int'),
+        'dbg_addr': (0x4, 2, 1, 'int'),
+        'p2p_up': (0x6, 1, 1, 'int'),
+        'last_id': (0x7, 1, 1, 'int'),
+        'eth_addr': (0x8, 2, 1, 'int'),
+        'hw_ver': (0xa, 1, 1, 'int'),
+        'eth_up': (0xb, 1, 1, 'int'),
+        'p2pb_repeats': (0xc, 1, 1, 'int'),
+        'p2p_sql': (0xd, 1, 1, 'int'),
+        'clk_div': (0xe, 1, 1, 'int'),
+        'tp_scale': (0xf, 1, 1, 'int'),
+        'clock_ms': (0x10, 4, 1, 'int'),
+        'clock_ms_h': (0x14, 4, 1, 'int'),
+        'time_ms': (0x18, 2, 1, 'int'),
+        'ltpc_period': (0x1a, 2, 1, 'int'),
+        'unix_time': (0x1c, 4, 1, 'int'),
+        'tp_timer': (0x20, 4, 1, 'int'),
+        'cpu_clk': (0x24, 2, 1, 'int'),
+        'mem_clk': (0x26, 2, 1, 'int'),
+        'forward': (0x28, 1, 1, 'int'),
+        'retry': (0x29, 1, 1, 'int'),
+        'peek_time': (0x2a, 1, 1, 'int'),
+        'led_period': (0x2b, 1, 1, 'int'),
+        'netinit_bc_wait': (0x2c, 1, 1, 'int'),
+        'netinit_phase': (0x2d, 1, 1, 'int'),
+        'p2p_root': (0x2e, 2, 1, 'int'),
+        'led0': (0x30, 4, 1, 'int'),
+        'led1': (0x34, 4, 1, 'int'),
+        '__PAD2': (0x38, 4, 1, 'int'),
+        'random': (0x3c, 4, 1, 'int'),
+        'root_chip': (0x40, 1, 1, 'int'),
+        'num_buf': (0x41, 1, 1, 'int'),
+        'boot_delay': (0x42, 1, 1, 'int'),
+        'soft_wdog': (0x43, 1, 1, 'int'),
+        '__PAD3': (0x44, 4, 1, 'int'),
+        'sysram_heap': (0x48, 4, 1, 'int'),
+        'sdram_heap': (0x4c, 4, 1, 'int'),
+        'iobuf_size': (0x50, 4, 1, 'int'),
+        'sys_bufs': (0x54, 4, 1, 'int'),
+        'sysbuf_size': (0x58, 4, 1, 'int'),
+        'boot_sig': (0x5c, 4, 1, 'int'),
+        'mem_ptr': (0x60, 4, 1, 'int'),
+        'lock': (0x64, 1, 1, 'int'),
+        'link_en': (0x65, 1, 1, 'int'),
+        'last_biff_id': (0x66, 1, 1, 'int'),
+        'bt_flags': (0x67, 1, 1, 'int'),
+        'shm_root.free': (0x68, 4, 1, 'int'),
+        'shm_root.count': (0x6c, 2, 1, 'int'),
+        'shm_root.max': (0x6e, 2, 1, 'int'),
+        'utmp0': (0x70, 4, 1, 'int'),
+        'utmp1': (0x74, 4, 1, 'int'),
+        'utmp2': (0x78, 4, 1, 'int'),
+        'utmp3': (0x7c, 4, 1, 'int'),
+        'status_map': (0x80, 1, 20, 'int'),
+        'p2v_map': (0x94, 1, 20, 'int'),
+        'v2p_map': (0xa8, 1, 20, 'int'),
+        'num_cpus': (0xbc, 1, 1, 'int'),
+        'rom_cpus': (0xbd, 1, 1, 'int'),
+        '__PAD4': (0xfc, 4, 1, 'int'),
+        'sdram_base': (0xc0, 4, 1, 'int'),
+        'sysram_base': (0xc4, 4, 1, 'int'),
+        'sdram_sys': (0xc8, 4, 1, 'int'),
+        'vcpu_base': (0xcc, 4, 1, 'int'),
+        'sys_heap': (0xd0, 4, 1, 'int'),
+        'rtr_copy': (0xd4, 4, 1, 'int'),
+        'hop_table': (0xd8, 4, 1, 'int'),
+        'alloc_tag': (0xdc, 4, 1, 'int'),
+        'rtr_free': (0xe0, 2, 1, 'int'),
+        'p2p_active': (0xe2, 2, 1, 'int'),
+        'app_data': (0xe4, 4, 1, 'int'),
+        'shm_buf': (0xe8, 4, 1, 'int'),
+        'mbox_flags': (0xec, 4, 1, 'int'),
+        'ip_addr': (0xf0, 4, 1, 'int'),
+        'fr_copy': (0xf4, 4, 1, 'int'),
+        'board_info': (0xf8, 4, 1, 'int'),
+    }],
+    "vcpu": [0x0, 128, {
+        'r0': (0x0, 4, 1, 'int'),
+        'r1': (0x4, 4, 1, 'int'),
+        'r2': (0x8, 4, 1, 'int'),
+        'r3': (0xc, 4, 1, 'int'),
+        'r4': (0x10, 4, 1, 'int'),
+        'r5': (0x14, 4, 1, 'int'),
+        'r6': (0x18, 4, 1, 'int'),
+        'r7': (0x1c, 4, 1, 'int'),
+        'psr': (0x20, 4, 1, 'int'),
+        'sp': (0x24, 4, 1, 'int'),
+        'lr': (0x28, 4, 1, 'int'),
+        'rt_code': (0x2c, 1, 1, 'int'),
+        'phys_cpu': (0x2d, 1, 1, 'int'),
+        'cpu_state': (0x2e, 1, 1, 'int'),
+        'app_id': (0x2f, 1, 1, 'int'),
+        'mbox_ap_msg': (0x30, 4, 1, 'int'),
+        'mbox_mp_msg': (0x34, 4, 1, 'int'),
+        'mbox_ap_cmd': (0x38, 1, 1, 'int'),
+        'mbox_mp_cmd': (0x39, 1, 1, 'int'),
+        'sw_count': (0x3a, 2, 1, 'int'),
+        'sw_file': (0x3c, 4, 1, 'int'),
+        'sw_line': (0x40, 4, 1, 'int'),
+        'time': (0x44, 4, 1, 'int'),
+        'app_name': (0x48, 16, 16, 'str'),
+        'iobuf': (0x58, 4, 1, 'int'),
+        'sw_ver': (0x5c, 4, 1, 'int'),
+        '__PAD': (0x60, 4, 4, 'int'),
+        'user0': (0x70, 4, 1, 'int'),
+        'user1': (0x74, 4, 1, 'int'),
+        'user2': (0x78, 4, 1, 'int'),
+        'user3': (0x7c, 4, 1, 'int'),
+    }],
+}
+
+
+def pinned_structs():
+    return dict((k, (v[0], v[1], dict(v[2]))) for k, v in PINNED_LAYOUT.items())
+
+
+def field_extent(f):
+    off, unit, count, kind = f
+    return off, off + (unit if kind == "str" else unit * count)
+
+
+def layout_problems(st):
+    """fields of one struct that overlap or leave the struct"""
+    out = []
+    for name, (base, size, fields) in st.items():
+        iv = sorted(field_extent(v) + (f,) for f, v in fields.items())
+        for (a, b, f), (c, d, g) in zip(iv, iv[1:]):
+            if c < b:
+                out.append("%s.%s [%#x, %#x) overlaps %s.%s [%#x, %#x)" % (name, f, a, b, name, g, c, d))
+        out += ["%s.%s ends at %#x beyond the struct's size %#x" % (name, f, b, size) for a, b, f in iv if b > size]
+    return out
+
+
+def op_structs(case, i, structs):
+    """the tables in force for call i of the case: those of case["struct_text"] once a boot / assignment has happened"""
+    if not case.get("struct_text"):
+        return structs
+    booted = any(o[0] in ("boot", "assign_structs") for o in case["ops"])
+    if not booted or any(o[0] in ("boot", "assign_structs") for o in case["ops"][:i]):
+        return parse_struct_text(case["struct_text"].encode("latin-1"))
+    return structs
+
+
 # ------------------------------------------------------------------------------------------ oracle memory
 class Mem(object):
     """the oracle's own byte memory: initial contents of the case + the bytes the calls should have stored"""
@@ -144,6 +294,8 @@ def target(case, op, mem, structs, chip=None):
     ("write", chip, address, bytes) or ("error", documented ValueError number)."""
     chip = tuple(case["chip"]) if chip is None else tuple(chip)
     k = op[0]
+    if k in ("boot", "assign_structs"):
+        return ("noop",)
     if k in ("read", "conn_read"):
         return ("read", chip, op[2], op[3], None)
     if k in ("write", "conn_write"):
@@ -290,6 +442,12 @@ def oracle(case, op, res, mem, structs, chip=None):
                             % (cmd, a3, a1, a2)))
         if cmd in (CMD_LINK_READ, CMD_LINK_WRITE) and (a1 % 4 or a2 % 4):
             bad.append(("link-cmd-misaligned", "link command %d for address %#x length %d" % (cmd, a1, a2)))
+    if tgt[0] == "noop":
+        if outcome[0] != "ok":
+            bad.append(("exception:" + str(outcome[1:2]), "%s raised %r" % (op[0], outcome)))
+        if res["diff"] != mem.diff():
+            bad.append(("memory-changed", "%s changed the machine's memory" % op[0]))
+        return bad
     if is_big_fill(op) and tgt[0] == "write":
         _, chip, address, data = tgt
         word = bytes(data[:4])
@@ -465,6 +623,20 @@ Fixpoint run_ops_ct (ct : controller) (E : env) (M : machine) (ops : list (chip 
       | OutOfFuel => [(3, 0, 0, 0, 0, 0, [], 0, [])]
       end
   end.
+Fixpoint run_hist (ct : controller) (E : env) (M : machine) (steps : list hstep) (ps : list (chip * Z * Z)) (full : bool) :=
+  match steps with
+  | [] => []
+  | HCall c o :: rest =>
+      match st_run_op ct E M c o with
+      | Ok (tr, out, M') =>
+          (0, 0, zlen tr, trace_digest tr, zlen out, digest out, short out, probe M' ps,
+           (if full then map request_fields tr else [])) :: run_hist ct E M' rest ps full
+      | Failed k => [(1, k, 0, 0, 0, 0, [], 0, [])]
+      | OtherError => [(2, 0, 0, 0, 0, 0, [], 0, [])]
+      | OutOfFuel => [(3, 0, 0, 0, 0, 0, [], 0, [])]
+      end
+  | s :: rest => (0, 0, 0, 0, 0, 0, [], probe M ps, []) :: run_hist (ctl_apply ct s) E M rest ps full
+  end.
 Definition mkreq (x y p : Z) (c : cmd) : request := {| rq_chip := (x, y); rq_core := p; rq_cmd := c |}.
 Definition validate (buffer w h seed : Z) over (tr : list (request * reply)) (ps : list (chip * Z * Z)) :=
   let '(M, bad) := replay buffer (torus_nbr w h) (pattern_machine seed over) tr in (bad, probe M ps).
@@ -484,13 +656,20 @@ def case_structs(case, structs):
 
 
 def coq_case(case, structs, probes, full):
-    if case.get("struct_text"):          # booted with this struct file: the controller's tables are replaced
-        st = case_structs(case, structs)
-        return "run_ops_ct (ctl_boot %s ctl_new) (mk_env %s (torus_nbr %s %s)) (pattern_machine %s %s) %s %s %s" % (
-            coq_sfile(st), zlit(case["buffer"]), zlit(case["dims"][0]), zlit(case["dims"][1]), zlit(case["seed"]),
-            coq_over(case.get("over", [])),
-            vlist("(%s, %s)" % (coq_chip(op_chip(case, i)), coq_op(o, st)) for i, o in enumerate(case["ops"])),
-            coq_probes(probes), "true" if full else "false")
+    if case.get("struct_text"):          # a history with a boot / an assignment of the struct tables
+        moved = coq_sfile(parse_struct_text(case["struct_text"].encode("latin-1")))
+        steps = []
+        for i, o in enumerate(case["ops"]):
+            if o[0] == "boot":
+                steps.append("HBoot moved")
+            elif o[0] == "assign_structs":
+                steps.append("HAssign moved")
+            else:
+                steps.append("HCall %s (%s)" % (coq_chip(op_chip(case, i)), coq_op(o, op_structs(case, i, structs))))
+        first = "ctl_new" if any(o[0] in ("boot", "assign_structs") for o in case["ops"]) else "(ctl_boot moved ctl_new)"
+        return "let moved := %s in run_hist %s (mk_env %s (torus_nbr %s %s)) (pattern_machine %s %s) %s %s %s" % (
+            moved, first, zlit(case["buffer"]), zlit(case["dims"][0]), zlit(case["dims"][1]), zlit(case["seed"]),
+            coq_over(case.get("over", [])), vlist(steps), coq_probes(probes), "true" if full else "false")
     return "run_ops (mk_env %s (torus_nbr %s %s)) (pattern_machine %s %s) %s %s %s" % (
         zlit(case["buffer"]), zlit(case["dims"][0]), zlit(case["dims"][1]), zlit(case["seed"]),
         coq_over(case.get("over", [])),
@@ -545,12 +724,12 @@ def probe_windows(case, structs):
     judges the whole machine through the simulator's sparse store; this is the model-vs-code comparison.)"""
     ps = []
     mem = Mem(case)
-    for i, op in enumerate(case["ops"][:4]):
+    for i, op in enumerate(case["ops"][:6]):
         chip = op_chip(case, i)
         nbrs = sorted(set(neighbour(chip, l, case["dims"]) for l in range(6)) - {chip})
         far = ((chip[0] + 3) % case["dims"][0], (chip[1] + 5) % case["dims"][1])
         try:
-            t = target(case, op, mem, structs, chip)
+            t = target(case, op, mem, op_structs(case, i, structs), chip)
         except Exception:
             continue
         if t[0] == "read":
@@ -1006,30 +1185,48 @@ def moved_struct_text(rng, text):
 
 
 def gen_rebooted(rng, default_text):
-    """controller created with the default struct file, then boot() with a struct file whose fields have moved:
-    struct-field and per-core field accesses must follow the new file (memory laid out accordingly)"""
+    """controller created with the default struct file; fields are accessed; then the tables are replaced -- by boot()
+    with a struct file whose fields have moved, or by assigning mc.structs -- and the SAME fields (and others) are
+    accessed again: every access must follow the tables in force at that moment (memory laid out for both)"""
     text = moved_struct_text(rng, default_text)
-    st = parse_struct_text(text)
+    moved = parse_struct_text(text)
+    old = pinned_structs()
     B = rng.choice([4, 16, 256])
     c = base_case(rng, B, rng.choice([1, 2, 8]), [], tag="rebooted", preset=True)
     c["struct_text"] = text.decode("latin-1")
     vb = 0x67800000 + 4 * rng.randrange(1 << 16)
-    ops = []
-    for _ in range(rng.choice([3, 4, 5])):
+
+    def access(st):
         k = rng.choice(["read_struct", "write_struct", "read_vcpu", "write_vcpu"])
         p = rng.randint(0, 17)
         if k in ("read_struct", "write_struct"):
             f = rng.choice(["utmp0", "utmp1", "led0", "led1", "sys_heap", "random", "sysram_heap", "status_map", "p2v_map",
                             "p2p_dims", "dbg_addr", "unix_time"])
             off, unit, count, kind = st["sv"][2][f]
-            ops.append([k, 0, f] if k == "read_struct" else [k, 0, f, sv_value(rng, unit, count)])
-        else:
-            f = rng.choice(["user0", "user3", "user1", "r5", "sw_line", "time", "rt_code", "cpu_state", "app_name"])
-            unit = st["vcpu"][2][f][1]
-            ops.append([k, p, f] if k == "read_vcpu" else
-                       [k, p, f, rng.choice(FITTING_NAMES) if f == "app_name" else rng.randrange(1 << (8 * unit))])
+            return [k, 0, f] if k == "read_struct" else [k, 0, f, sv_value(rng, unit, count)]
+        f = rng.choice(["user0", "user3", "user1", "r5", "sw_line", "time", "rt_code", "cpu_state", "app_name"])
+        unit = st["vcpu"][2][f][1]
+        return [k, p, f] if k == "read_vcpu" else \
+            [k, p, f, rng.choice(FITTING_NAMES) if f == "app_name" else rng.randrange(1 << (8 * unit))]
+    before = [access(old) for _ in range(rng.choice([1, 2, 2]))]
+    after = []
+    for o in before:                       # the same fields again, now at their new addresses
+        o2 = list(o)
+        o2[0] = rng.choice(["read_struct", "write_struct"]) if "struct" in o[0] else rng.choice(["read_vcpu", "write_vcpu"])
+        st = moved["sv"] if "struct" in o[0] else moved["vcpu"]
+        off, unit, count, kind = st[2][o[2]]
+        o2 = o2[:3]
+        if o2[0] == "write_struct":
+            o2.append(sv_value(rng, unit, count))
+        elif o2[0] == "write_vcpu":
+            o2.append(rng.choice(FITTING_NAMES) if o[2] == "app_name" else rng.randrange(1 << (8 * unit)))
+        after.append(o2)
+    after += [access(moved) for _ in range(rng.choice([1, 2]))]
+    rng.shuffle(after)
+    ops = before + [[rng.choice(["boot", "boot", "assign_structs"])]] + after
     cores = sorted(set(o[1] for o in ops if o[0] in ("read_vcpu", "write_vcpu")))
-    c["over"] = vcpu_over(rng, c["chip"], st, vb, cores)
+    o1, o2 = vcpu_over(rng, c["chip"], old, vb, cores), vcpu_over(rng, c["chip"], moved, vb, cores)
+    c["over"] = [[c["chip"][0], c["chip"][1], o1[0][2] + o2[0][2]]]      # one association list per chip (first entry wins)
     c["ops"] = ops
     return c
 
@@ -1179,8 +1376,21 @@ def run(chk, args):
         "FatalReturnCodeError when the machine answered a fatal return code (C06); only a normal return is judged"]
     chk.regenerate(UNITS)
     chk.prove()
-    structs = parse_structs(os.path.join(lib.REPO, "rig", "boot", "sark.struct"))
+    structs = pinned_structs()
     PARSED_STRUCTS[0] = structs
+    try:
+        live = parse_structs(os.path.join(lib.REPO, "rig", "boot", "sark.struct"))
+        delta = ["%s.%s: file %r, documented %r" % (k, f, live.get(k, (0, 0, {}))[2].get(f), structs[k][2].get(f))
+                 for k in structs for f in sorted(set(structs[k][2]) | set(live.get(k, (0, 0, {}))[2]))
+                 if live.get(k, (0, 0, {}))[2].get(f) != structs[k][2].get(f)]
+        delta += ["%s: base/size %r, documented %r" % (k, live.get(k, (None, None))[:2], structs[k][:2]) for k in structs
+                  if tuple(live.get(k, (None, None))[:2]) != tuple(structs[k][:2])]
+        chk.oblige("layout:bundled-struct-file-equals-pinned (%d sv + %d vcpu fields: offset, unit, length, kind)"
+                   % (len(structs["sv"][2]), len(structs["vcpu"][2])), not delta, "; ".join(delta[:8]))
+        probs = layout_problems(dict((k, live[k]) for k in structs if k in live))
+        chk.oblige("layout:no-two-fields-overlap", not probs, "; ".join(probs[:8]))
+    except Exception as e:                                       # noqa
+        chk.oblige("layout:bundled-struct-file-equals-pinned", False, "%s: %s" % (type(e).__name__, e))
     rng = chk.rng
     quick = chk.tier == "quick"
     windows = [1, 2, 8]
@@ -1270,8 +1480,8 @@ def run(chk, args):
                     chk.oblige("environment:discovery", False, "discover_connections found %r on the simulated "
                                "three-board machine" % (res[0]["discovered"],))
             mem = Mem(c)
-            cstructs = parse_struct_text(c["struct_text"].encode("latin-1")) if c.get("struct_text") else structs
             for i, (op, r) in enumerate(zip(c["ops"], res)):
+                cstructs = op_structs(c, i, structs)
                 chk.count("outcome:" + (r["outcome"][0] if r["outcome"][0] != "exc" else r["outcome"][1]))
                 verdicts = oracle(c, op, r, mem, cstructs, op_chip(c, i))
                 if verdicts and verdicts[0][0] == "generator-out-of-domain":
@@ -1301,7 +1511,7 @@ def run(chk, args):
                     continue
                 if c.get("nomodel"):         # a 65540-command burst: oracle only
                     continue
-                ps = probe_windows(c, case_structs(c, structs))
+                ps = probe_windows(c, structs)
                 full = bool(c.get("plan"))
                 exprs.append(coq_case(c, structs, ps, full))
                 meta.append(("model", g, ps))
@@ -1320,8 +1530,7 @@ def run(chk, args):
                         continue
                     if quick and c.get("tag") in ("sv", "fill", "link", "vcpu") and k % 3:
                         continue
-                    ps = probe_windows(c, parse_struct_text(c["struct_text"].encode("latin-1"))
-                                       if c.get("struct_text") else structs)
+                    ps = probe_windows(c, structs)
                     e = coq_trace(c, res, ps)
                     if e is not None:
                         exprs.append(e)
@@ -1357,7 +1566,7 @@ def run(chk, args):
                     res = results[id(c)]
                     chk.traces_validated += 1
                     n_model += 1
-                    why = compare(c, res, v, ps, case_structs(c, structs))
+                    why = compare(c, res, v, ps, structs)
                     if why:
                         chk.disagree("%s (buffer %d, window %d, ops %r)" % (why, c["buffer"], c["window"], c["ops"]),
                                      dict(case=c, model=repr(v)[:600],
@@ -1399,11 +1608,12 @@ def run(chk, args):
         "distinct by hash of (buffer, window, initial memory, chip, calls, fault plan)")
 
 
-def compare(case, res, v, ps, structs):
+def compare(case, res, v, ps, default_structs):
     """model summaries v (one per call) against the implementation's results"""
     if res == ["hang"]:
         res = [dict(outcome=["hang"], trace=[], diff=[])]
     for i, r in enumerate(res):
+        structs = op_structs(case, i, default_structs)
         if i >= len(v):
             return "model stops after %d calls, implementation made %d" % (len(v), len(res))
         code, k, ntr, tdig, nout, odig, out, pv, fields = v[i]
